@@ -69,12 +69,26 @@ func entryName(id string) string {
 
 var hostileIDs = []string{"x", "y", "a/b", "../escape", "/abs/path", "..", "é-ü", strings.Repeat("L", 300), "sp ace", "semi;colon"}
 
+// identifiers that differ only far from the start, in case, in trailing blanks, in a NUL byte or in
+// the Unicode normal form: different identifiers, so different entries
+var idFamilies = [][]string{
+	{strings.Repeat("p", 64) + "A", strings.Repeat("p", 64) + "B"},
+	{strings.Repeat("q", 256) + "A", strings.Repeat("q", 256) + "B", strings.Repeat("q", 255) + "A", strings.Repeat("q", 255) + "B"},
+	{"https://example.com/" + strings.Repeat("s/", 160) + "#DOCUMENT-A", "https://example.com/" + strings.Repeat("s/", 160) + "#DOCUMENT-B"},
+	{strings.Repeat("r", 5000) + "1", strings.Repeat("r", 5000) + "2"},
+	{"case", "Case", "CASE"},
+	{"blank", "blank ", " blank", "blank\t"},
+	{"nul", "nul\x00", "nul\x00x"},
+	{"caf\u00e9", "cafe\u0301"},
+	{"a/b", "a\\b", "a%2Fb"},
+}
+
 var entryRe = regexp.MustCompile(`^[0-9a-f]{64}\.protobom(\.tmp-.*)?$`)
 
 func runC19(seed int64, n int, dir string, tier string) *Report {
 	g := gen.New(seed)
 	rep := NewReport("C19", seed)
-	rep.Rule = "n histories of 3..9 operations (store with both no-clobber settings, store of nil / id-less documents, retrieve of stored, unknown and empty identifiers, injected faults: garbage, empty, foreign or unreadable entries, removed entries) against a directory that is absent, not creatable, not a directory, empty, or unusable by the caller; identifiers include path separators, dot-dot, absolute paths, unicode and 300-byte strings; every call runs in a child process, one history in three as the unprivileged user nobody; non-trivial = at least two successful stores; distinct by hash"
+	rep.Rule = "n histories of 3..9 operations (store with both no-clobber settings, store of nil / id-less documents, retrieve of stored, unknown and empty identifiers, injected faults: garbage, empty, foreign or unreadable entries, removed entries) against a directory that is absent, not creatable, not a directory, empty, or unusable by the caller; identifiers include path separators, dot-dot, absolute paths, unicode and 300-byte strings, and families that differ only after a long common prefix (64 to 5000 bytes), in case, blanks, a NUL byte or the Unicode normal form; every call runs in a child process, one history in three as the unprivileged user nobody; non-trivial = at least two successful stores; distinct by hash"
 	cf := &CasesFile{Imports: "Model.Base Model.Store Corr.CheckC19", Type: "case19", Eval: "mismatches"}
 	_, errPriv := exec.LookPath("setpriv")
 	for h := 0; h < n; h++ {
@@ -96,10 +110,17 @@ func runC19(seed int64, n int, dir string, tier string) *Report {
 			file  string
 		}
 		var docs []docT
+		var fam []string
+		if g.Chance(0.5) {
+			fam = idFamilies[gen.Pick(g, []int{0, 1, 1, 1, 2, 2, 3, 4, 5, 6, 7, 8})]
+		}
 		nd := 2 + g.Int(3)
 		for k := 0; k < nd; k++ {
 			d := sbom.NewDocument()
 			id := gen.Pick(g, hostileIDs)
+			if fam != nil {
+				id = fam[k%len(fam)]
+			}
 			d.Metadata.Id = id
 			d.Metadata.Name = fmt.Sprintf("doc%d", k)
 			d.NodeList = g.NodeList(gen.Shape{MaxNodes: 3, MaxEdges: 3, WellFormed: true, Richness: 0.3})
@@ -166,18 +187,46 @@ func runC19(seed int64, n int, dir string, tier string) *Report {
 		var ops, outs []string
 		var desc []any
 		okStores := 0
+		// what a retrieve must return: the last document stored successfully under the identifier,
+		// as long as the harness has not damaged that entry since
+		expect := map[string]int{}
 		steps := 3 + g.Int(7)
-		for s := 0; s < steps; s++ {
+		// histories over an identifier family end with: store every document, then retrieve every one
+		type forced struct{ kind, doc int }
+		var script []forced
+		if fam != nil {
+			for k := range docs {
+				script = append(script, forced{0, k})
+			}
+			for k := range docs {
+				script = append(script, forced{1, k})
+			}
+		}
+		for s := 0; s < steps+len(script); s++ {
+			var force *forced
+			if s >= steps {
+				force = &script[s-steps]
+			}
 			someID := func() string {
+				if force != nil {
+					return docs[force.doc].id
+				}
 				if g.Chance(0.75) {
 					return gen.Pick(g, docs).id
 				}
 				return gen.Pick(g, append(hostileIDs, "", "unknown"))
 			}
-			switch k := g.Int(10); {
+			k := g.Int(10)
+			if force != nil {
+				k = []int{0, 5}[force.kind]
+			}
+			switch {
 			case k < 4: // store
 				nc := g.Chance(0.4)
-				if g.Chance(0.07) {
+				if force != nil {
+					nc = false
+				}
+				if force == nil && g.Chance(0.07) {
 					co := runChild(asNobody, "storenil", sdir)
 					ops = append(ops, fmt.Sprintf("(PStore None %s)", coqfmt.Bool(false)))
 					outs = append(outs, outcomePair(co, 0))
@@ -186,6 +235,9 @@ func runC19(seed int64, n int, dir string, tier string) *Report {
 					continue
 				}
 				d := gen.Pick(g, docs)
+				if force != nil {
+					d = docs[force.doc]
+				}
 				co := runChild(asNobody, "store", sdir, d.file, fmt.Sprint(nc))
 				ops = append(ops, fmt.Sprintf("(PStore (Some %d) %s)", d.tok, coqfmt.Bool(nc)))
 				outs = append(outs, outcomePair(co, 0))
@@ -195,6 +247,7 @@ func runC19(seed int64, n int, dir string, tier string) *Report {
 				rep.OracleEvals++
 				if co.Outcome == "ok" {
 					okStores++
+					expect[d.id] = d.tok
 					if d.id == "" {
 						rep.Fail(Failure{What: "storing a document without identifier succeeded", Input: map[string]any{"history": desc}})
 					}
@@ -217,6 +270,9 @@ func runC19(seed int64, n int, dir string, tier string) *Report {
 				rep.Count("op=retrieve:" + co.Outcome)
 				rep.c19Abnormal(co, desc)
 				rep.OracleEvals++
+				if want, known := expect[id]; known && (co.Outcome != "ok" || tk != want) {
+					rep.Fail(Failure{What: "a stored document is no longer returned although nothing touched its entry: documents with different identifiers affected each other, or the entry was lost", Detail: fmt.Sprintf("identifier of %d bytes: outcome %s %s, document token %d, expected %d", len(id), co.Outcome, co.Error, tk, want), Input: map[string]any{"history": desc}})
+				}
 				if co.Outcome == "ok" {
 					ok := false
 					for _, d := range docs {
@@ -235,6 +291,7 @@ func runC19(seed int64, n int, dir string, tier string) *Report {
 					continue
 				}
 				p := filepath.Join(sdir, entryName(id))
+				delete(expect, id)
 				switch f := g.Int(5); f {
 				case 0:
 					_ = os.WriteFile(p, []byte("\xff\xff\xffgarbage"), 0o644)
